@@ -251,6 +251,7 @@ class AbsExec:
     def __init__(self, qual: str, hooks: dict[str, Callable[..., Any]] | None = None, helpers: dict[str, Any] | None = None):
         self.qual = qual
         self.hooks = hooks or {}
+        self.globals: dict[str, Any] = {}  # module-level names, visible in the interpreted function and in every inlined helper
         self.helpers = helpers or {}  # name -> FunctionInfo of in-package helper methods that may be interpreted when called on cls / self
         self.properties: dict[tuple[str, str], tuple[Any, Any]] = {}  # (class of the model object, attribute) -> (getter, setter) FunctionInfo
         self.steps = 0
@@ -259,7 +260,15 @@ class AbsExec:
     def unknown(self, e: ast.AST, why: str = "") -> Unknown:
         return Unknown(f"{self.qual}:{getattr(e, 'lineno', '?')}: `{unparse(e)[:70]}` is outside the parser model{(' (' + why + ')') if why else ''}")
 
+    def used(self, *vals: Any) -> None:
+        """Tell the `use` hook (if any) that these values were consulted by an operator, a comparison, a truth test or an ordering."""
+        h = self.hooks.get("use")
+        if h is not None:
+            for v in vals:
+                h(self, v)
+
     def truth(self, v: Any, e: ast.AST) -> bool:
+        self.used(v)
         if isinstance(v, bool) or v is None or isinstance(v, (int, str, float)):
             return bool(v)
         if isinstance(v, (list, tuple, set, frozenset, dict)):
@@ -307,14 +316,18 @@ class AbsExec:
         if isinstance(e, ast.Name):
             if e.id in env:
                 return env[e.id]
+            if e.id in self.globals:
+                return self.globals[e.id]
             if e.id in self.hooks:
                 return self.hooks[e.id]
             if e.id in BUILTIN_EXC:
                 return ("exc-class", e.id)
-            if e.id in ("len", "reversed", "list", "tuple", "any", "all", "bool", "isinstance", "set", "frozenset", "iter", "str", "enumerate", "sorted", "min", "max", "range", "type", "locals", "vars", "setattr", "getattr", "hasattr", "delattr", "dict", "zip", "round", "pow", "abs", "int", "float"):
+            if e.id in ("len", "reversed", "list", "tuple", "any", "all", "sum", "bool", "isinstance", "set", "frozenset", "iter", "str", "enumerate", "sorted", "min", "max", "range", "type", "locals", "vars", "setattr", "getattr", "hasattr", "delattr", "dict", "zip", "round", "pow", "abs", "int", "float"):
                 return ("builtin", e.id)
             if e.id == "settings":
                 return SettingsV()
+            if e.id == "ExitStack":
+                return ("ctor", "ExitStack")
             return Opaque(e.id)
         if isinstance(e, ast.JoinedStr):
             parts: list[Any] = []
@@ -344,6 +357,7 @@ class AbsExec:
             v = self.ev(e.operand, env)
             if isinstance(e.op, ast.Not):
                 return not self.truth(v, e.operand)
+            self.used(v)
             if isinstance(e.op, ast.USub) and isinstance(v, (int, float)):
                 return -v
             raise self.unknown(e)
@@ -353,6 +367,8 @@ class AbsExec:
             left = self.ev(e.left, env)
             for op, c in zip(e.ops, e.comparators):
                 right = self.ev(c, env)
+                if not isinstance(op, (ast.Is, ast.IsNot)):
+                    self.used(left, right)
                 if isinstance(op, ast.Eq):
                     r = self.eq(left, right, e)
                 elif isinstance(op, ast.NotEq):
@@ -365,7 +381,7 @@ class AbsExec:
                     r = left is right or (left is None and right is None) or (isinstance(left, bool) and left == right)
                 elif isinstance(op, ast.IsNot):
                     r = not (left is right or (left is None and right is None) or (isinstance(left, bool) and left == right))
-                elif isinstance(left, (int, float)) and isinstance(right, (int, float)) and not isinstance(left, bool):
+                elif isinstance(left, (int, float)) and isinstance(right, (int, float)):
                     r = {ast.Lt: left < right, ast.LtE: left <= right, ast.Gt: left > right, ast.GtE: left >= right}[type(op)]
                 else:
                     raise self.unknown(e, "ordering of non-integers")
@@ -385,6 +401,20 @@ class AbsExec:
             return {self.ev(k, env): self.ev(v, env) for k, v in zip(e.keys, e.values) if k is not None}
         if isinstance(e, ast.Subscript):
             base = self.ev(e.value, env)
+            if isinstance(base, str):
+                if isinstance(e.slice, ast.Slice):
+                    lo_ = self.ev(e.slice.lower, env) if e.slice.lower else None
+                    hi_ = self.ev(e.slice.upper, env) if e.slice.upper else None
+                    st_ = self.ev(e.slice.step, env) if e.slice.step else None
+                    if all(v is None or isinstance(v, int) for v in (lo_, hi_, st_)):
+                        return base[lo_:hi_:st_]
+                else:
+                    i_ = self.ev(e.slice, env)
+                    if isinstance(i_, int):
+                        if not -len(base) <= i_ < len(base):
+                            raise Internal("IndexError", f"`{unparse(e)}`", e)
+                        return base[i_]
+                raise self.unknown(e, "string subscript")
             if isinstance(base, MObj) and "subscript" in self.hooks:
                 def sl(x: ast.AST) -> Any:
                     if isinstance(x, ast.Slice):
@@ -410,6 +440,8 @@ class AbsExec:
                 if el is None:
                     raise Internal("KeyError", f"`{unparse(e)}` looks up a token that is not a registered function or operator", e)
                 return el
+            if isinstance(base, (list, tuple)) and isinstance(idx, float):
+                raise Internal("TypeError", f"`{unparse(e)}`: list indices must be integers, not float", e)
             if isinstance(base, (list, tuple)) and isinstance(idx, int):
                 if not -len(base) <= idx < len(base):
                     raise Internal("IndexError", f"`{unparse(e)}` on a sequence of length {len(base)}", e)
@@ -421,6 +453,7 @@ class AbsExec:
             raise self.unknown(e)
         if isinstance(e, ast.BinOp):
             a, b = self.ev(e.left, env), self.ev(e.right, env)
+            self.used(a, b)
             num = (int, float)
             if isinstance(a, num) and isinstance(b, num) and not isinstance(a, bool) and not isinstance(b, bool):
                 try:
@@ -469,6 +502,14 @@ class AbsExec:
                 raise self.unknown(e, "arithmetic on symbolic values outside the linear model")
             if isinstance(a, list) and isinstance(b, int) and isinstance(e.op, ast.Mult):
                 return list(a) * b
+            if isinstance(a, (list, set, frozenset)) and isinstance(b, (list, set, frozenset)) and isinstance(e.op, (ast.BitAnd, ast.BitOr, ast.Sub)) \
+                    and (isinstance(a, list) or isinstance(b, list)):
+                # views of dictionary keys behave like sets
+                if isinstance(e.op, ast.BitAnd):
+                    return [x for x in a if x in b]
+                if isinstance(e.op, ast.Sub):
+                    return [x for x in a if x not in b]
+                return list(a) + [x for x in b if x not in a]
             container = (list, dict, MObj)
             if (isinstance(a, container) and isinstance(b, (int, float))) or (isinstance(b, container) and isinstance(a, (int, float))):
                 if not (isinstance(e.op, ast.Mult) and (isinstance(a, list) or isinstance(b, list))):
@@ -623,6 +664,8 @@ class AbsExec:
             return f(self, e, args, kw)
         if isinstance(f, tuple) and f and f[0] == "exc-class":
             return ExcValue(f[1])
+        if isinstance(f, tuple) and f == ("ctor", "ExitStack"):
+            return MObj("ExitStack", {"callbacks": []})
         if isinstance(f, tuple) and f and f[0] == "builtin":
             if f[1] == "dict" and kw and not args:
                 return dict(kw)
@@ -707,6 +750,18 @@ class AbsExec:
         nums = all(isinstance(a, (int, float)) and not isinstance(a, bool) for a in args)
         if name in ("max", "min") and args and nums:
             return max(args) if name == "max" else min(args)
+        if name in ("max", "min") and len(args) == 1 and isinstance(args[0], (list, tuple)):
+            kw_ = getattr(self, "_call_kw", {})
+            if not args[0]:
+                if "default" in kw_:
+                    return kw_["default"]
+                raise Internal("ValueError", f"`{unparse(e)[:60]}` of an empty sequence", e)
+            ordered = self.sort_values(list(args[0]), kw_.get("key"), False, e)
+            if name == "min":
+                return ordered[0]
+            # max returns the first of the maximal elements: the stable sort puts it first among its equals
+            top = self.sort_values(list(args[0]), kw_.get("key"), True, e)
+            return top[0]
         if name == "abs" and nums and len(args) == 1:
             return abs(args[0])
         if name in ("int", "float") and len(args) == 1 and (nums or isinstance(args[0], Lin)):
@@ -723,14 +778,8 @@ class AbsExec:
         if name == "reversed" and isinstance(args[0], (list, tuple)):
             return list(reversed(args[0]))
         if name == "sorted" and args:
-            v = list(self.iterate(args[0], e))
             kw_ = getattr(self, "_call_kw", {})
-            if not all(isinstance(x, str) for x in v):
-                raise self.unknown(e, "sorting values that are not strings")
-            keyf = kw_.get("key")
-            if keyf is not None and not (isinstance(keyf, tuple) and keyf == ("builtin", "len")):
-                raise self.unknown(e, "sort key")
-            return sorted(v, key=(len if keyf is not None else None), reverse=bool(kw_.get("reverse", False)))  # type: ignore[arg-type]
+            return self.sort_values(list(self.iterate(args[0], e)), kw_.get("key"), bool(kw_.get("reverse", False)), e)
         if name in ("list", "tuple", "iter") and args:
             v = self.iterate(args[0], e)
             return list(v) if name != "tuple" else tuple(v)
@@ -738,6 +787,8 @@ class AbsExec:
             return []
         if name in ("set", "frozenset"):
             return (set if name == "set" else frozenset)(self.iterate(args[0], e)) if args else (set() if name == "set" else frozenset())
+        if name == "sum" and args and isinstance(args[0], (list, tuple)) and all(isinstance(x, (bool, int, float)) for x in args[0]):
+            return sum(args[0], *(a for a in args[1:2] if isinstance(a, (bool, int, float))))
         if name == "any":
             return any(self.truth(x, e) for x in self.iterate(args[0], e))
         if name == "all":
@@ -758,7 +809,45 @@ class AbsExec:
             return list(range(*args))
         raise self.unknown(e, f"builtin {name}")
 
+    def sort_values(self, v: list[Any], keyf: Any, reverse: bool, e: ast.AST) -> list[Any]:
+        """sorted / list.sort on concrete values: the keys must be numbers, strings or tuples of them (a stable sort, as Python's)."""
+        def key_of(x: Any) -> Any:
+            if keyf is None:
+                k = x
+            elif isinstance(keyf, tuple) and keyf == ("builtin", "len"):
+                k = len(x)
+            elif isinstance(keyf, Closure):
+                k = self.call_closure(keyf, [x], {}, e)
+            elif callable(keyf) and not isinstance(keyf, tuple):
+                k = keyf(self, e, [x], {})
+            else:
+                raise self.unknown(e, "sort key")
+            return k
+
+        def concrete(k: Any) -> bool:
+            return (isinstance(k, (int, float, str)) and k == k) or (isinstance(k, (tuple, list)) and all(concrete(x) for x in k))
+
+        keys = [key_of(x) for x in v]
+        self.used(*[x for k in keys for x in (k if isinstance(k, (tuple, list)) else [k])])
+        if not all(concrete(k) for k in keys):
+            if any(isinstance(k, MObj) or (isinstance(k, (tuple, list)) and any(isinstance(x, MObj) for x in k)) for k in keys) and keyf is None:
+                raise self.unknown(e, "sorting values that are not numbers or strings")
+            raise self.unknown(e, "sort key")
+        try:
+            order = sorted(range(len(v)), key=lambda i: keys[i], reverse=reverse)
+        except TypeError:
+            raise Internal("TypeError", f"`{unparse(e)[:60]}` compares keys of different kinds", e) from None
+        return [v[i] for i in order]
+
     def method(self, recv: Any, name: str, args: list[Any], kw: dict[str, Any], e: ast.AST) -> Any:
+        if isinstance(recv, MObj) and recv.cls == "ExitStack":
+            if name == "callback" and args:
+                recv.fields["callbacks"].append((args[0], tuple(args[1:]), tuple(kw.items())))
+                return args[0]
+            if name in ("close", "pop_all", "enter_context"):
+                raise self.unknown(e, f"ExitStack.{name}")
+        if isinstance(recv, Opaque) and name == "ExitStack":
+            return MObj("ExitStack", {"callbacks": []})
         hook = self.hooks.get(f"method:{name}")
         if hook is not None:
             return hook(self, e, recv, args, kw)
@@ -792,6 +881,9 @@ class AbsExec:
                 return None
             if name == "reverse":
                 recv.reverse()
+                return None
+            if name == "sort" and not args and f"method:{name}" not in self.hooks:
+                recv[:] = self.sort_values(list(recv), kw.get("key"), bool(kw.get("reverse", False)), e)
                 return None
             if name == "index" or name == "count":
                 hits = [i for i, x in enumerate(recv) if self.eq(x, args[0], e)]
@@ -972,6 +1064,16 @@ class AbsExec:
                 cur.extend(self.iterate(v, s))
             elif isinstance(cur, (set, frozenset)) and isinstance(v, (set, frozenset)) and isinstance(s.op, (ast.Sub, ast.BitOr, ast.BitAnd)):
                 env[s.target.id] = (set(cur) - set(v)) if isinstance(s.op, ast.Sub) else ((set(cur) | set(v)) if isinstance(s.op, ast.BitOr) else (set(cur) & set(v)))  # type: ignore[union-attr]
+            elif isinstance(s.target, (ast.Name, ast.Attribute)):
+                # x op= v on immutable values is x = x op v
+                load = ast.copy_location(ast.Name(id=s.target.id, ctx=ast.Load()), s.target) if isinstance(s.target, ast.Name) else \
+                    ast.copy_location(ast.Attribute(value=s.target.value, attr=s.target.attr, ctx=ast.Load()), s.target)
+                env["<aug>"] = v  # already evaluated: not evaluated a second time
+                both = ast.copy_location(ast.BinOp(left=load, op=s.op, right=ast.copy_location(ast.Name(id="<aug>", ctx=ast.Load()), s.value)), s)
+                old_ = self.ev(load, env)
+                if isinstance(old_, (list, set, dict, MObj)):
+                    raise self.unknown(s)
+                self.bind(s.target, self.ev(both, env), env)
             else:
                 raise self.unknown(s)
         elif isinstance(s, ast.If):
@@ -1053,12 +1155,24 @@ class AbsExec:
                 if s.finalbody:
                     self.block(s.finalbody, env)
         elif isinstance(s, ast.With):
+            stacks: list[MObj] = []
             for item in s.items:
                 ctx = self.ev(item.context_expr, env)
                 entered = self.hooks["enter"](self, item.context_expr, ctx) if "enter" in self.hooks else ctx
+                if isinstance(ctx, MObj) and ctx.cls == "ExitStack":
+                    stacks.append(ctx)
                 if item.optional_vars is not None:
                     self.bind(item.optional_vars, entered, env)
-            self.block(s.body, env)  # (context managers of the models have no effect on exit)
+            try:
+                self.block(s.body, env)
+            finally:
+                # contextlib.ExitStack: the registered callbacks run last-in first-out on every way out of the block
+                for st in reversed(stacks):
+                    for cb, cargs, ckw in reversed(st.fields.get("callbacks", [])):
+                        if isinstance(cb, Closure):
+                            self.call_closure(cb, list(cargs), dict(ckw), s)
+                        else:
+                            raise self.unknown(s, "ExitStack callback that is not a local function")
         elif isinstance(s, ast.Assert):
             if not self.truth(self.ev(s.test, env), s.test):
                 raise Raised("AssertionError", s)
